@@ -1,5 +1,81 @@
-(* C14/Props.v -- property theorems only. *)
+(* C14/Props.v -- property theorems only; each is closed by [exact] of a lemma
+   from C14/Proofs.v and followed by Print Assumptions.  The model (C14/Model.v)
+   is hand-written from odl/discr/partition.py, grid.py, domain.py, normalize.py
+   and tied to the code by the correspondence shards (C14/Corr.v).
+
+   An axis of a partition is (a_lo, a_hi, a_cs) = (set.min_pt[ax], set.max_pt[ax],
+   grid.coord_vectors[ax]);  [valid ax] is exactly what RectPartition.__init__
+   accepts ([axis_ok ax = true], lemma [valid_is_what_the_code_accepts]):
+   lo <= hi, at least one grid point, strictly increasing, all inside [lo, hi].
+   [nthR i l] is [nth i l 0]. *)
 From Coq Require Import ZArith Reals List Bool.
-From Verif Require Import Base.Num C14.Model C14.Proofs.
+From Verif Require Import Base.Num Base.Vec C14.Model C14.Proofs.
 Import ListNotations.
 Local Open Scope R_scope.
+
+Theorem valid_is_what_the_code_accepts : forall ax : axis R, axis_ok ax = true <-> valid ax.
+Proof. exact axis_ok_valid. Qed.
+Print Assumptions valid_is_what_the_code_accepts.
+
+(* ------------------------------------------------------------------ *)
+(* T1. Tiling: for every valid axis with n grid points (any n >= 1, any
+   non-uniform vector, any limits) the boundary vector has n+1 entries, starts
+   and ends exactly at the domain limits, is strictly increasing, and node i
+   lies in cell i = [b_i, b_(i+1)]. *)
+Theorem boundaries_start_and_end_at_the_limits : forall ax : axis R, valid ax ->
+  length (bdry_vec ax) = S (length (a_cs ax)) /\
+  nthR 0 (bdry_vec ax) = a_lo ax /\
+  nthR (length (a_cs ax)) (bdry_vec ax) = a_hi ax.
+Proof. exact bdry_limits. Qed.
+Print Assumptions boundaries_start_and_end_at_the_limits.
+
+(* strictly increasing -- for >= 2 points always; for a single point iff the
+   interval is not degenerate (lo < hi) *)
+Theorem boundaries_strictly_increasing : forall (ax : axis R) (i : nat), valid ax ->
+  (2 <= length (a_cs ax))%nat \/ a_lo ax < a_hi ax ->
+  (i < length (a_cs ax))%nat ->
+  nthR i (bdry_vec ax) < nthR (S i) (bdry_vec ax).
+Proof. exact bdry_step. Qed.
+Print Assumptions boundaries_strictly_increasing.
+
+(* the unrestricted statement "strictly increasing for EVERY partition" is false
+   of the faithful model: a zero-extent axis (e.g. nonuniform_partition(1)) has
+   boundaries [c, c].  Weak monotonicity holds always. *)
+Theorem boundaries_strictly_increasing_refuted :
+  exists ax : axis R, valid ax /\ ~ sincr (bdry_vec ax).
+Proof. exact bdry_strict_refuted. Qed.
+Theorem boundaries_weakly_increasing : forall (ax : axis R) (i : nat), valid ax ->
+  (i < length (a_cs ax))%nat -> nthR i (bdry_vec ax) <= nthR (S i) (bdry_vec ax).
+Proof. exact bdry_step_weak. Qed.
+Print Assumptions boundaries_weakly_increasing.
+
+Theorem each_grid_point_in_its_own_cell : forall (ax : axis R) (i : nat), valid ax ->
+  (i < length (a_cs ax))%nat ->
+  nthR i (bdry_vec ax) <= nthR i (a_cs ax) <= nthR (S i) (bdry_vec ax).
+Proof. exact node_in_cell. Qed.
+Print Assumptions each_grid_point_in_its_own_cell.
+
+(* T1. cell_sizes_vecs: for >= 2 points entry i is exactly the width of cell i,
+   hence the sizes sum to the extent. *)
+Theorem cell_sizes_are_the_cell_widths : forall (ax : axis R) (i : nat),
+  (2 <= length (a_cs ax))%nat -> (i < length (a_cs ax))%nat ->
+  nthR i (cell_sizes ax) = nthR (S i) (bdry_vec ax) - nthR i (bdry_vec ax).
+Proof. exact cell_sizes_nth. Qed.
+Print Assumptions cell_sizes_are_the_cell_widths.
+
+Theorem cell_sizes_sum_to_extent_partial : forall ax : axis R, valid ax ->
+  (2 <= length (a_cs ax))%nat -> sumf (cell_sizes ax) = a_hi ax - a_lo ax.
+Proof. exact cell_sizes_sum. Qed.
+Print Assumptions cell_sizes_sum_to_extent_partial.
+
+(* Full statement  "forall ax, valid ax -> sumf (cell_sizes ax) = a_hi ax - a_lo ax"
+   is FALSE of the faithful model (finding C14/cell_sizes-single-point-axis,
+   documented in the docstring: "For axes with 1 grid point, cell size is set to 0.0"). *)
+Theorem cell_sizes_sum_to_extent_refuted :
+  exists ax : axis R, valid ax /\ sumf (cell_sizes ax) <> a_hi ax - a_lo ax.
+Proof. exact cell_sizes_sum_refuted. Qed.
+Theorem cell_sizes_single_point : forall lo hi c : R, cell_sizes (mkAxis lo hi [c]) = [0].
+Proof. exact cell_sizes_single. Qed.
+
+Example a_valid_axis_exists : valid (mkAxis 0 3 [1/2; 1; 5/2]).
+Proof. exact example_axis_valid. Qed.
